@@ -129,7 +129,12 @@ def h_segment(ctx, chroms, method, skip_low, min_weight, outliers=False, case=No
         for (obj, name), val in saved.items():
             setattr(obj, name, val)
     rows = list(segs.data.itertuples(index=False))
-    ctx.observe("segments", [[r.chromosome, r.start, r.end, r.probes] for r in rows])
+    if not real_haar:
+        # (the weighted Haar convolution keeps running sums: where they cancel exactly in real
+        # arithmetic float64 leaves 1e-17, which FindLocalPeaks may or may not see as a peak, so
+        # the breakpoint set itself is not compared between the symbolic and the float run -- A1;
+        # the claims are replayed on whatever segmentation the float run produces)
+        ctx.observe("segments", [[r.chromosome, r.start, r.end, r.probes] for r in rows])
     # survivors, from the statement (filters in the documented order)
     surv = []
     choice_vals = dict(ctx.inputs) if concrete(ctx) else None
@@ -260,7 +265,7 @@ def _cfgs():
                     out.append(c)
     out.append({"chroms": ["chr1"] * 3, "method": "none", "skip_low": False, "min_weight": 0, "outliers": True})
     out.append({"chroms": ["chr1"] * 3, "method": "haar", "skip_low": False, "min_weight": 0, "real_haar": True, "weights": [0.5, 1.0, 0.25]})
-    out.append({"chroms": ["chr1"] * 4, "method": "haar", "skip_low": True, "min_weight": 0, "real_haar": True, "weights": [0.5, 1.0, 0.25, 0.75], "tier": "thorough"})
+    out.append({"chroms": ["chr1"] * 4, "method": "haar", "skip_low": False, "min_weight": 0, "real_haar": True, "weights": [0.5, 1.0, 0.25, 0.75], "tier": "thorough"})
     out.append({"chroms": ["chr1", "chr1", "chrX", "chrX"], "method": "haar", "skip_low": True, "min_weight": 0, "outliers": True, "tier": "thorough"})
     return out
 
